@@ -83,6 +83,9 @@ pub(crate) struct LiveEvents<'a> {
 
     /// Whether any content event has been produced in the current stream.
     produced_any_in_doc: bool,
+    /// Set once the reader has reported a failure (or the byte cap was exceeded). The error
+    /// itself is handed out once; this records that nothing after it can be trusted.
+    input_failed: bool,
     /// Whether we emitted a synthetic null scalar to represent an empty document.
     synthesized_null_emitted: bool,
     /// Single-item lookahead buffer (peeked event not yet consumed).
@@ -170,6 +173,7 @@ impl<'a> LiveEvents<'a> {
         let parser = Parser::new(input);
         Self {
             produced_any_in_doc: false,
+            input_failed: false,
             synthesized_null_emitted: false,
             parser: SaphyrParser::StreamParser(parser),
             input: None, // Reader-based input cannot support zero-copy borrowing
@@ -216,6 +220,7 @@ impl<'a> LiveEvents<'a> {
         let input = input.strip_prefix('\u{FEFF}').unwrap_or(input);
         Self {
             produced_any_in_doc: false,
+            input_failed: false,
             synthesized_null_emitted: false,
             parser: SaphyrParser::StringParser(Parser::new_from_str(input)),
             input: Some(input),
@@ -730,8 +735,9 @@ impl<'a> LiveEvents<'a> {
     }
 
     #[cold]
-    fn io_error(&self) -> Result<(), Error> {
+    fn io_error(&mut self) -> Result<(), Error> {
         if let Some(error) = self.error.take() {
+            self.input_failed = true;
             Err(Error::IOError { cause: error })
         } else {
             Ok(())
@@ -801,6 +807,11 @@ impl<'a> LiveEvents<'a> {
     /// Returns `true` if a new document was found, `false` if EOF was reached.
     /// Syntax errors during skipping cause the method to return `false` (EOF-like).
     pub(crate) fn skip_to_next_document(&mut self) -> bool {
+        // After a reader failure (or the byte cap) there is no next document: whatever the
+        // parser still holds was cut short by the failure.
+        if self.input_failed {
+            return false;
+        }
         // Clear any peeked event and injection state
         self.look = None;
         self.inject.clear();
